@@ -188,7 +188,7 @@ def run_semantic(res, sources, opts=None, count=30, extra_case=None, label="prog
         mt = v.get("match") or {}
         # names whose value the kernel-checked validator covers (theorem Facto.scalar_end_to_end): bound scalar outputs
         pnames = set(mt.get("proved_names") or []) if not v.get("stateful") else set()
-        obs_names = [o for o in (v.get("obs") or []) if not o.endswith(".enable")]
+        obs_names = list(v.get("obs") or [])
         proved = bool(pnames) and all(o in pnames for o in obs_names)
         info["proved"] = proved
         info["proved_names"] = sorted(pnames)
